@@ -50,6 +50,28 @@ func stripDollarQuotedStrings(sql string) string {
 			pos = end + 1
 			continue
 		}
+		// Neither does a $ inside a comment: "-- $$" ... "-- $$" must not hide
+		// the lines in between.
+		if c == '-' && pos+1 < len(sql) && sql[pos+1] == '-' {
+			end := strings.IndexByte(sql[pos:], '\n')
+			if end < 0 {
+				result.WriteString(sql[pos:])
+				break
+			}
+			result.WriteString(sql[pos : pos+end+1])
+			pos += end + 1
+			continue
+		}
+		if c == '/' && pos+1 < len(sql) && sql[pos+1] == '*' {
+			end := strings.Index(sql[pos+2:], "*/")
+			if end < 0 {
+				result.WriteString(sql[pos:]) // unterminated: as-is
+				break
+			}
+			result.WriteString(sql[pos : pos+2+end+2])
+			pos += 2 + end + 2
+			continue
+		}
 		if c != '$' {
 			result.WriteByte(c)
 			pos++
